@@ -140,6 +140,27 @@ fn f15() -> bool {
     }
 }
 
+/// F16: an inconsistent, rank-deficient linear system converges (step test) in one request order
+/// and drifts forever (constant 1.4e-8 step along the null space) in the reversed order.
+fn f16() -> bool {
+    use ezpz_verif_harness::codec::dec_constraint;
+    let reqs: Vec<ConstraintRequest> = [
+        "Midpoint 2 3 0 1 2 3",
+        "VerticalDistance 0 1 0 1 4615908143078047744",
+        "HorizontalDistance 0 1 2 3 13840124604862955520",
+        "HorizontalDistance 2 3 2 3 4616330355543113728",
+        "ScalarEqual 1 0",
+    ]
+    .iter()
+    .map(|s| hp(dec_constraint(s).unwrap()))
+    .collect();
+    let g = guesses(&[0.875, -3.625, 1.125, 3.5]);
+    let fwd = solve(&reqs, g.clone(), Config::default());
+    let rev: Vec<ConstraintRequest> = reqs.iter().rev().copied().collect();
+    let bwd = solve(&rev, g, Config::default().with_max_iterations(200));
+    fwd.is_ok() && matches!(bwd, Err(e) if matches!(e.error, NonLinearSystemError::DidNotConverge))
+}
+
 fn main() {
     let args: Vec<String> = std::env::args().collect();
     std::panic::set_hook(Box::new(|_| {}));
@@ -151,6 +172,7 @@ fn main() {
             "F12-no-lint-outside-returned-subset" => f12(),
             "F14-point-on-arc-outside-sweep" => f14(),
             "F15-underdetermined-lands-farther-than-1.5x" => f15(),
+            "F16-null-space-drift-on-inconsistent-rank-deficient" => f16(),
             other => {
                 println!("UNKNOWN-FINDING {other}");
                 std::process::exit(2);
@@ -225,4 +247,5 @@ fn main() {
     println!("F12 reproduced={}", f12());
     println!("F14 reproduced={}", f14());
     println!("F15 reproduced={}", f15());
+    println!("F16 reproduced={}", f16());
 }
